@@ -36,6 +36,7 @@ def run_property(prop: str, tier: str, repo: str, seed: int = 0, only_rules=None
             if not mine:
                 continue
             n0 = len(ctx.obs)
+            ctx.current_rules = mine
             a.func(ctx)
             # keep only obligations of rules that serve this property
             kept = [o for o in ctx.obs[n0:] if o.rule in mine]
